@@ -96,18 +96,5 @@ func (e *kvElection) handleValidationFailure(err error) {
 		)...,
 	)
 
-	e.becomeFollower()
-
-	e.mu.RLock()
-	onDemote := e.onDemote
-	e.mu.RUnlock()
-
-	if onDemote != nil {
-		log.Info("leader_demoted",
-			append(e.logWithContext(e.ctx),
-				zap.String("reason", "token_validation_failure"),
-			)...,
-		)
-		onDemote()
-	}
+	e.demote("token_validation_failure")
 }
